@@ -2,9 +2,11 @@ package fakes
 
 import (
 	"context"
+	"errors"
 	"fmt"
 	"path/filepath"
 	"sort"
+	"sync"
 	"time"
 
 	ds "github.com/ipfs/go-datastore"
@@ -26,9 +28,15 @@ const RaftProto = "/verif/raft/rpc"
 type raftConsSvc struct{ p *RaftPeer }
 
 func (s *raftConsSvc) LogPin(ctx context.Context, in *api.Pin, out *struct{}) error {
+	if s.p.refuse() {
+		return errors.New("injected: the leader could not take the redirected operation")
+	}
 	return s.p.Cons.LogPin(ctx, in)
 }
 func (s *raftConsSvc) LogUnpin(ctx context.Context, in *api.Pin, out *struct{}) error {
+	if s.p.refuse() {
+		return errors.New("injected: the leader could not take the redirected operation")
+	}
 	return s.p.Cons.LogUnpin(ctx, in)
 }
 func (s *raftConsSvc) AddPeer(ctx context.Context, in peer.ID, out *struct{}) error {
@@ -62,6 +70,36 @@ type RaftPeer struct {
 	Init   []peer.ID
 	client *rpc.Client
 	up     bool
+	// RefuseRedirects makes the Consensus RPC service fail the next n
+	// redirected LogPin/LogUnpin calls before they reach the component
+	refuseMu        sync.Mutex
+	RefuseRedirects int
+	Refused         int
+}
+
+func (p *RaftPeer) refuse() bool {
+	p.refuseMu.Lock()
+	defer p.refuseMu.Unlock()
+	if p.RefuseRedirects > 0 {
+		p.RefuseRedirects--
+		p.Refused++
+		return true
+	}
+	return false
+}
+
+// SetRefuse arms the refusal of the next n redirected operations.
+func (p *RaftPeer) SetRefuse(n int) {
+	p.refuseMu.Lock()
+	p.RefuseRedirects, p.Refused = n, 0
+	p.refuseMu.Unlock()
+}
+
+// RefusedCount says how many redirected operations were refused since SetRefuse.
+func (p *RaftPeer) RefusedCount() int {
+	p.refuseMu.Lock()
+	defer p.refuseMu.Unlock()
+	return p.Refused
 }
 
 // NewRaftHost creates the long-lived part of a peer: host and RPC server.
